@@ -277,16 +277,24 @@ func oracleC09(p *Pair, env *Env, a [][]byte) *Failure {
 	for len(a2) > 0 && a2[len(a2)-1] == "" {
 		a2 = a2[:len(a2)-1]
 	}
-	// the input may already carry the header (with or without its empty line)
-	strict := len(in) > 0 && string(in[0]) != " " && string(in[0]) != "\t"
-	if len(a1) >= 2 && a1[0] == h1 && a1[1] == h2 && strict && strings.HasPrefix(string(in), "##! Please refer to the documentation at\n##! https") || strings.HasPrefix(string(in), "##! Please refer to the documentation at\r\n##! https") {
-		if len(a1) == 2 || a1[2] == "" {
-			a1 = a1[2:]
-			if len(a1) > 0 {
-				a1 = a1[1:]
-			}
+	// the input may already carry the header (with or without its empty line): decided on the raw lines, as format does
+	// (indentation of spaces and tabs is not part of a line, any other character is)
+	rawLine := func(i int) (string, bool) {
+		if i >= len(inLines) {
+			return "", false
+		}
+		return strings.TrimLeft(strings.TrimSuffix(inLines[i], "\r"), " \t"), true
+	}
+	l0, _ := rawLine(0)
+	l1, _ := rawLine(1)
+	l2, has2 := rawLine(2)
+	if l0 == "##! Please refer to the documentation at" && l1 == "##! https://coreruleset.org/docs/development/regex_assembly/." && (!has2 || l2 == "") && len(a1) >= 2 {
+		a1 = a1[2:]
+		if len(a1) > 0 {
+			a1 = a1[1:]
 		}
 	}
+	_, _ = h1, h2
 	if !crcr && strings.Join(a1, "\n") != strings.Join(a2, "\n") {
 		f := &Failure{What: "format changed more than white space (line sequence differs after stripping white space)",
 			Detail: fmt.Sprintf("input %q\noutput %q\nstripped in  %q\nstripped out %q", in, out, a1, a2)}
